@@ -27,11 +27,29 @@ def parseOp (line : String) : Option Op :=
   | ["iter"] => some .iter
   | _ => none
 
+/-- `drain <t>:<op>;<op>… <t>:…` — shutdown with the given behaviours; ops `a.p.t` (add) `r.t` (remove) -/
+def parseBeh (words : List String) : Nat → List Op := fun t =>
+  match words.find? (fun w => (w.splitOn ":").head? == some (toString t)) with
+  | none => []
+  | some w =>
+    match w.splitOn ":" with
+    | [_, ops] => (ops.splitOn ";").filterMap fun o =>
+        match o.splitOn "." with
+        | ["a", p, u] => do some (Op.add (← p.toInt?) (← u.toNat?))
+        | ["r", u] => u.toNat?.map Op.remove
+        | _ => none
+    | _ => []
+
 partial def loop (h : IO.FS.Stream) (out : IO.FS.Stream) (q : TQ) : IO Unit := do
   let line ← h.getLine
   if line.isEmpty then return ()
   if line.trimAscii.toString == "reset" then
     out.putStrLn "reset"
+    loop h out TQ.init
+  else if line.startsWith "drain" then
+    let words := ((line.trimAscii.toString.splitOn " ").filter (· ≠ "")).drop 1
+    let order := q.drain (parseBeh words) 200
+    out.putStrLn ("ran " ++ " ".intercalate (order.map toString))
     loop h out TQ.init
   else
     match parseOp line with
